@@ -288,6 +288,34 @@ def _filter_loops(fnode):
     return hit
 
 
+def _fold_item(stmts, item):
+    """`item = E; xs.append(item)`  ->  `xs.append(E)` (the temporary of the synthetic consumer loops), in nested blocks too."""
+    def block(seq):
+        out = []
+        i = 0
+        while i < len(seq):
+            st = seq[i]
+            nxt = seq[i + 1] if i + 1 < len(seq) else None
+            if isinstance(st, ast.Assign) and len(st.targets) == 1 and isinstance(st.targets[0], ast.Name) and st.targets[0].id == item and \
+                    isinstance(nxt, ast.Expr) and isinstance(nxt.value, ast.Call) and len(nxt.value.args) == 1 and \
+                    isinstance(nxt.value.args[0], ast.Name) and nxt.value.args[0].id == item:
+                nxt.value.args[0] = st.value
+                out.append(nxt)
+                i += 2
+                continue
+            for fld in ('body', 'orelse', 'finalbody'):
+                sub = getattr(st, fld, None)
+                if isinstance(sub, list) and sub and isinstance(sub[0], ast.stmt):
+                    setattr(st, fld, block(sub))
+            if isinstance(st, ast.Try):
+                for h in st.handlers:
+                    h.body = block(h.body)
+            out.append(st)
+            i += 1
+        return out
+    return block(stmts)
+
+
 def _splice_generator(loop, gnode, mapping, prelude):
     """`for T in gen(args): BODY`, gen a generator function whose yields are plain statements `yield E`  ->  gen's body with every
     `yield E` replaced by `T = E; BODY`.  The consumer sees the same values in the same order, interleaved with the generator's
@@ -556,6 +584,32 @@ class Inliner(object):
                 bound = self._bind(hnode, call, recv)
                 if bound is not None:
                     return _splice_generator(st, hnode, bound[0], bound[1])
+            # `sorted(gen(...), key=...)`, `sum(gen(...))`: an eager consumer as part of a simple statement - the generator's
+            # values are collected into a temporary list first (same values, same order, all of them)
+            if isinstance(st, (ast.Assign, ast.Expr, ast.Return, ast.AugAssign)) and not _in_deferred_context(st, call):
+                par = None
+                for x in ast.walk(st):
+                    if isinstance(x, ast.Call) and x.args and x.args[0] is call and isinstance(x.func, ast.Name) and \
+                            x.func.id in ('sorted', 'set', 'frozenset', 'sum', 'max', 'min', 'dict', 'OrderedDict') and \
+                            not (isinstance(st, ast.Assign) and st.value is x and x.func.id in ('list', 'tuple')):
+                        par = x
+                if par is not None:
+                    bound = self._bind(hnode, call, recv)
+                    if bound is not None:
+                        tmp = '_gen_%s_%d' % (hnode.name.strip('_'), getattr(call, 'lineno', 0))
+                        loop = ast.For(target=ast.Name(id=tmp + '_item', ctx=ast.Store()), iter=call, orelse=[],
+                                       body=[ast.Expr(value=ast.Call(func=ast.Attribute(value=ast.Name(id=tmp, ctx=ast.Load()), attr='append', ctx=ast.Load()),
+                                                                     args=[ast.Name(id=tmp + '_item', ctx=ast.Load())], keywords=[]))])
+                        ast.copy_location(loop, st)
+                        ast.fix_missing_locations(loop)
+                        spliced = _splice_generator(loop, hnode, bound[0], bound[1])
+                        if spliced is not None:
+                            spliced = _fold_item(spliced, tmp + '_item')
+                            init = ast.copy_location(ast.Assign(targets=[ast.Name(id=tmp, ctx=ast.Store())], value=ast.List(elts=[], ctx=ast.Load())), st)
+                            out = [init] + spliced + [self._replace(st, call, ast.Name(id=tmp, ctx=ast.Load()))]
+                            for x in out:
+                                ast.fix_missing_locations(x)
+                            return out
             # `xs = list(gen(...))`: the generator's body appending to a new list
             if isinstance(st, ast.Assign) and len(st.targets) == 1 and isinstance(st.targets[0], ast.Name) and \
                     isinstance(st.value, ast.Call) and isinstance(st.value.func, ast.Name) and st.value.func.id in ('list', 'tuple') \
@@ -573,6 +627,7 @@ class Inliner(object):
                     spliced = _splice_generator(loop, hnode, bound[0], bound[1])
                     if spliced is None:
                         return None
+                    spliced = _fold_item(spliced, '_item_%s' % tgt)
                     init = ast.copy_location(ast.Assign(targets=[ast.Name(id=tgt, ctx=ast.Store())], value=ast.List(elts=[], ctx=ast.Load())), st)
                     out = [init] + spliced
                     if st.value.func.id == 'tuple':
